@@ -112,19 +112,29 @@ def stack_limit(ctx, repo):
                     continue
                 val = kw[0].value
                 t = norm(val)
-                ok = t in ("maxStackLimit", "48", "513", "maxstack")
-                if t == "maxstack":
-                    # local variable: must be assigned 48 / 513 only
-                    from ..core import enclosing_func
+                from ..core import enclosing_func, inline_locals
 
-                    f = enclosing_func(c)
-                    vals = [norm(n.value) for n in ast.walk(f) if isinstance(n, ast.Assign) and norm(n.targets[0]) == "maxstack"] if f else []
-                    ok = vals == ["48 if not self._CFF2 else 513"]
+                f = enclosing_func(c)
+                params = {a_.arg for a_ in (f.args.args + f.args.kwonlyargs)} if f is not None and hasattr(f, "args") else set()
+                v_ = inline_locals(f, val) if f is not None and hasattr(f, "args") else val
+
+                menv = module_env(repo, mod)
+
+                def limit(e):
+                    k = try_fold(e, menv)
+                    return k if k in (48, 513) else None
+
+                ok = t == "maxStackLimit" or limit(v_) is not None or (isinstance(val, ast.Name) and val.id in params)
+                if not ok and isinstance(v_, ast.IfExp):
+                    # a choice between the two limits by the CFF2 flag: both arms are limits, and they differ
+                    a1, a2 = limit(v_.body), limit(v_.orelse)
+                    ok = a1 is not None and a2 is not None and a1 != a2
                 from .safety import _func_qual_of
 
                 ctx.ob("F24", f"{rel}:{_func_qual_of(mod, c)}", f"{last_attr(c)}(..., maxstack={t})", ok, "" if ok else "caller passes a stack limit that is neither the CFF (48) nor the CFF2 (513) limit")
     c2 = repo.mod("cffLib/CFF2ToCFF.py")
-    thr = [try_fold(n.comparators[0]) for n in ast.walk(c2.tree) if isinstance(n, ast.Compare) and norm(n.left) == "stackUse" and isinstance(n.ops[0], ast.Gt)]
+    # `stackUse > 48` (act) or its complement `stackUse <= 48` (skip), literal or named constant
+    thr = [try_fold(n.comparators[0]) for n in ast.walk(c2.tree) if isinstance(n, ast.Compare) and len(n.ops) == 1 and (norm(n.left) == "stackUse" or isinstance(n.left, ast.Call) and isinstance(n.left.func, ast.Attribute) and n.left.func.attr == "execute" and "xtractor" in norm(n.left.func.value)) and isinstance(n.ops[0], (ast.Gt, ast.LtE))]
     ctx.ob("F24", c2.rel + ":<module>", f"CFF2->CFF re-specialises charstrings with stackUse > {thr}", thr == [dflt], "" if thr == [dflt] else "threshold differs from the CFF stack limit used by the specializer")
     pm = repo.mod(PS)
     ex = pm.func("T2StackUseExtractor.execute.pushToStack")
